@@ -56,6 +56,7 @@ func (r *intervalStream) worker(ctx context.Context, interval time.Duration) {
 			// the lock is requested and when the lock is obtained,
 			// the context has been canceled
 			if ctx.Err() != nil {
+				r.Unlock()
 				return
 			}
 			r.point.setTimestamp(r.started)
